@@ -634,6 +634,23 @@ def check_C16(run: Run):
             run.violation("gate equality is not symmetric", {"a": d[0], "b": d[1]})
     for _, gt in pool:
         if O.impl_gateeq(gt, gt)["v"] is not True: run.violation("gate equality is not reflexive", {"a": gt})
+    # equality with an object of another type is False, never an exception (gates, statements, IR, circuit, mapping, registers)
+    from opensquirrel import CircuitBuilder as _CB16
+    from opensquirrel.mapper.mapping import Mapping as _Map16
+    import opensquirrel.default_gates as _dg16
+    from opensquirrel.ir import Bit as _Bit16
+    _b = _CB16(2, 1); _b.H(0); _b.CNOT(0, 1); _b.measure(0, _Bit16(0))
+    _c = _b.to_circuit()
+    objs = [("gate", _dg16.H(0)), ("controlled gate", _dg16.CNOT(0, 1)), ("measure", _c.ir.statements[2]), ("IR", _c.ir), ("circuit", _c),
+            ("mapping", _Map16([0, 1])), ("register manager", _c.register_manager), ("qubit", _c.ir.statements[0].qubit)]
+    for lab, o in objs:
+        for foreign in (5, "H q[0]", None, (0, 1), [0, 1], 1.5, object()):
+            run.count({"foreign": lab, "other": repr(foreign)[:20]}, tag="foreign")
+            try:
+                v1 = (o == foreign); v2 = (o != foreign)
+            except Exception as ex:
+                run.violation(f"comparing a {lab} with {type(foreign).__name__} raised {O.err_name(ex)}", {"kind": lab}); continue
+            if v1 or not v2: run.violation(f"a {lab} compares equal to a {type(foreign).__name__}", {"kind": lab})
     # circuit equality: tie with the model's `circuitEq` on pairs of related circuits
     cpairs = []
     for _ in range(run.n(80, 1200)):
@@ -858,7 +875,9 @@ def check_C19(run: Run):
     orig_get = mx.get_matrix
     class Spy(mx.MatrixExpander):
         def __init__(self, n):
-            sizes.append(n); super().__init__(n)
+            sizes.append(n)
+            if n > 16: raise RuntimeError(f"matrix expansion requested on {n} qubits")      # never allocate 4^n entries here
+            super().__init__(n)
     orig_cls = mx.MatrixExpander
     mx.MatrixExpander = Spy
     try:
@@ -866,6 +885,7 @@ def check_C19(run: Run):
         al = pass_alphabet()
         for reg in regs:
             for it in range(run.n(8, 60) if reg < 100000 else run.n(6, 18)):
+                if len(run.violations) >= 5: break          # enough evidence; do not soak a degraded implementation
                 k = rng.randint(2, 4)
                 base = g.circuit(n=k, kinds="all", allow_band=False, length=rng.randint(4, 24), max_outcomes=2)
                 if it % 6 in (0, 1, 5):      # two-qubit gates between the lowest and the highest placed qubit
